@@ -18,6 +18,7 @@ THEOREMS = [
     "C07_gensym_fresh",
     "C07_gensym_form",
     "C07_scope_wellformed",
+    "C07_same_signature",
     "C07_once",
     "C07_bind_error",
     "C07_result_passthrough",
@@ -260,6 +261,25 @@ def scope_correspondence(out, drv, sig, fname):
         out.count("scope_checked")
         if sorted(got_params) != sorted(w["params"]) or scope_names != want_scope:
             out.model_diff("gensym", f"generated identifiers differ: impl params {got_params} scope {scope_names}; model params {w['params']} scope {want_scope}", {"sig": sig, "fname": fname})
+        # the synthesised def must have the original's parameters - same names, kinds, default-presence, same
+        # order - plus (with output) one fresh keyword-only parameter placed with the keyword-only group
+        gsig = inspect.signature(gen)
+        want_sig = [(n, q.kind, q.default is not inspect.Parameter.empty) for n, q in s.parameters.items()]
+        got_sig = [(n, q.kind, q.default is not inspect.Parameter.empty) for n, q in gsig.parameters.items()]
+        if output:
+            extra = [t for t in got_sig if t[0] not in s.parameters]
+            ok_extra = len(extra) == 1 and extra[0][1] == inspect.Parameter.KEYWORD_ONLY and not extra[0][2]
+            got_core = [t for t in got_sig if t[0] in s.parameters]
+        else:
+            ok_extra, got_core = True, got_sig
+        kname = {inspect.Parameter.POSITIONAL_ONLY: "posonly", inspect.Parameter.POSITIONAL_OR_KEYWORD: "pos", inspect.Parameter.VAR_POSITIONAL: "varpos",
+                 inspect.Parameter.KEYWORD_ONLY: "kwonly", inspect.Parameter.VAR_KEYWORD: "varkw"}
+        outname = next((t[0] for t in got_sig if t[0] not in s.parameters), None) if output else None
+        wr = drv.ask({"cmd": "rendersig", "params": [{"name": n, "kind": kname[k], "default": d} for n, k, d in want_sig], "output": outname})
+        if wr["parsed"] != [[n, kname[k], d] for n, k, d in got_sig]:
+            out.model_diff("rendersig", f"signature of the synthesised def: implementation {got_sig}, model {wr['parsed']} (rendered {wr['pieces']})", {"sig": sig, "fname": fname})
+        if got_core != want_sig or not ok_extra:
+            out.violation("generated-signature", f"the checking function synthesised for def {fname}({render_params(sig)}) has signature {gsig}: its parameters must be the original's (names, kinds, defaults present) {'plus one keyword-only output parameter' if output else ''}", {"sig": sig, "fname": fname})
         allnames = got_params + scope_names
         if len(set(allnames)) != len(allnames) or (fname in scope_names):
             out.violation("scope-collision", f"generated identifiers collide: params {got_params} scope {scope_names} function {fname}", {"sig": sig, "fname": fname})
